@@ -2,6 +2,7 @@ package main
 
 import (
 	"fmt"
+	"go/ast"
 	"go/token"
 	"go/types"
 	"sort"
@@ -413,6 +414,11 @@ func checkC15(p *Program, r *Report) {
 				if f, _, ok := bufferOf(m, e.Root, kt.Type(), sliceFields); ok && m == zeroFn && Z[f] {
 					continue
 				}
+			}
+			if e.Root.Kind == rkParam && e.Root.Idx >= 1 && !ast.IsExported(m.Name()) {
+				// an unexported helper writing scratch memory its caller hands it: judged at the exported callers, whose
+				// effects are closed over this one with the argument substituted
+				continue
 			}
 			bad = append(bad, fmt.Sprintf("%s %s at %s", e.What, e.Root, p.Pos(e.Pos)))
 		}
